@@ -95,6 +95,8 @@ def generate(rng):
     fam = cfg["family"]
     hi = 13 if not cfg.get("big") else 36
     cfg["pool_n"] = [cfg["n"], rng.randint(kmin, max(kmin, hi)), rng.randint(kmin, max(kmin, hi))]
+    if rng.random() < 0.45:
+        cfg["pool_n"][1] = cfg["pool_n"][0]      # same shape, other values: what a cache keyed by shape would confuse
     cfg["layouts"] = [weighted(rng, [("C", 5), ("F", 1.5), ("strided", 1.5), ("readonly", 1.5), ("int", 1)]) for _ in range(3)]
     is_kauri = fam == "Kauri"
     info = FAMILIES.get(fam, {})
@@ -113,18 +115,20 @@ def generate(rng):
     if not is_kauri:
         kinds += [("other_fit", 1.2)]
     if sparse and cfg["d"] >= 2:
-        kinds += [("path", 2.5), ("crash_path", 1)]
+        kinds += [("path", 2.5), ("crash_path", 1), ("nan_path", 1)]
     ops = []
     last_ds = None
     for _ in range(rng.randint(1, 8) if rng.random() < 0.9 else rng.randint(8, 14)):
         k = weighted(rng, kinds)
         op = {"op": k}
-        if k in ("fit", "fit_predict", "path", "crash_fit", "crash_path", "badparam_fit", "malformed_fit", "other_fit"):
+        if k in ("fit", "fit_predict", "path", "crash_fit", "crash_path", "nan_path", "badparam_fit", "malformed_fit", "other_fit"):
             op["data"] = rng.randrange(3)
             last_ds = op["data"] if k in ("fit", "fit_predict", "path") else last_ds
         if k in ("predict", "predict_proba", "score"):
             op["data"] = last_ds if (categorical and last_ds is not None) else rng.randrange(3)
-        if k in ("path", "crash_path"):
+        if k == "nan_path":
+            op["nan_at"] = rng.randint(1, 60)
+        if k in ("path", "crash_path", "nan_path"):
             op["args"] = {"alpha_multiplier": choice(rng, [2.0, 5.0]), "min_features": rng.randint(1, cfg["d"]),
                           "max_patience": rng.randint(1, 2), "restore_best_weights": rng.random() < 0.6}
         if k in ("crash_fit", "crash_path"):
@@ -145,12 +149,18 @@ def generate(rng):
         tail["args"] = {"alpha_multiplier": choice(rng, [2.0, 5.0]), "min_features": rng.randint(1, cfg["d"]),
                         "max_patience": 1, "restore_best_weights": rng.random() < 0.6}
     ops.append(tail)
+    for op in ops:
+        if op["op"] in ("fit", "fit_predict", "path") and rng.random() < 0.12:
+            op["isolate"] = True      # also compare with an execution in the clean room (pristine library state)
     if sparse:
         cfg["params"]["alpha"] = choice(rng, [0.05, 0.5, 2.0])
     return {"property": PROPERTY, "scenario": "lifecycle", "config": cfg, "ops": ops, "faults": {}}
 
 
 def sample_param_change(rng, cfg):
+    if cfg["family"] != "Kauri" and rng.random() < 0.6:
+        from .common import sample_param_change as generic_change
+        return generic_change(rng, cfg)          # GEMINI-related parameters (kernel, metric, ovo, gemini, base_kernel, groups...)
     if cfg["family"] == "Kauri":
         return choice(rng, [["max_clusters", rng.randint(1, 5)], ["max_features", choice(rng, [None, 1, 2])],
                             ["max_depth", choice(rng, [None, 1, 3])], ["random_state", rng.randrange(10000)]])
@@ -202,6 +212,74 @@ def fitted_state(m):
         else:
             out[k] = copy.deepcopy(v)
     return out
+
+
+def state_fingerprint(obj):
+    """Canonical, process-independent fingerprint of a fitted state (nested dicts / lists / arrays / scalars)."""
+    import hashlib
+    h = hashlib.sha256()
+
+    def feed(o):
+        from gemclus.gemini._base_loss import _GEMINI
+        if isinstance(o, np.ndarray):
+            h.update(b"A" + str(o.shape).encode() + str(o.dtype).encode() + np.ascontiguousarray(o).tobytes())
+        elif isinstance(o, dict):
+            h.update(b"D")
+            for k in sorted(o, key=str):
+                h.update(str(k).encode())
+                feed(o[k])
+        elif isinstance(o, (list, tuple)):
+            h.update(b"L%d" % len(o))
+            for x in o:
+                feed(x)
+        elif isinstance(o, (float, np.floating)):
+            h.update(b"F" + (b"nan" if np.isnan(o) else float(o).hex().encode()))
+        elif isinstance(o, (bool, np.bool_)):
+            h.update(b"B1" if o else b"B0")
+        elif isinstance(o, (int, np.integer)):
+            h.update(b"I" + str(int(o)).encode())
+        elif o is None:
+            h.update(b"N")
+        elif isinstance(o, str):
+            h.update(b"S" + o.encode())
+        elif isinstance(o, _GEMINI):
+            h.update(b"G" + type(o).__name__.encode())
+            feed({k: v for k, v in vars(o).items()})
+        else:
+            h.update(b"O" + type(o).__name__.encode())
+    feed(obj)
+    return h.hexdigest()
+
+
+def isolated_execution(payload):
+    """Runs in the clean room: fresh estimator from the given hyper-parameters, one fit / fit_predict / path on the given
+    dataset of the pool; returns fingerprints of the fitted state and of the returned value."""
+    import warnings
+    warnings.simplefilter("ignore")
+    cfg, params, which, kind, args = payload["cfg"], payload["params"], payload["which"], payload["kind"], payload["args"]
+    c = dict(cfg)
+    c["params"] = params
+    X, A = dataset(cfg, which)
+    if cfg["family"] == "Kauri":
+        m = get_class("Kauri")(**params)
+    else:
+        m = build_model(c, None)
+    if cfg.get("decorate"):
+        decorate(m, cfg["decorate"])
+    out = None
+    try:
+        if kind == "path":
+            out = m.path(X, A, **args)
+        elif kind == "fit_predict":
+            out = m.fit_predict(X, A)
+        else:
+            m.fit(X, A)
+    except Exception as e:
+        return {"raised": type(e).__name__}
+    st = fitted_state(m)
+    detail = {k: state_fingerprint(v) for k, v in st.items()}
+    return {"state": state_fingerprint(st), "attrs": detail,
+            "ret": None if out is None else state_fingerprint(list(out) if isinstance(out, tuple) else np.asarray(out))}
 
 
 def first_difference(a, b):
@@ -341,9 +419,13 @@ def execute(record):
                 params_at_call = copy.deepcopy(user_params)
                 outcome = "ok"
                 ret = None
-                base_kind = {"crash_fit": "fit", "crash_path": "path"}.get(kind, kind)
+                base_kind = {"crash_fit": "fit", "crash_path": "path", "nan_path": "path"}.get(kind, kind)
                 try:
-                    if kind in ("fit", "fit_predict", "path", "crash_fit", "crash_path"):
+                    if kind in ("fit", "fit_predict", "path", "crash_fit", "crash_path", "nan_path"):
+                        if kind == "nan_path":
+                            # the documented NaN-abort branch: the GEMINI returns NaN from its k-th evaluation on; path()
+                            # stops and RETURNS (a completed call, so hyper-parameters must be what the user set)
+                            world.gemini_fault = {"kind": "nan", "at": op["nan_at"]}
                         if kind.startswith("crash"):
                             c = op["crash"]
                             if c["seam"] == "opt" and not is_kauri:
@@ -377,6 +459,9 @@ def execute(record):
                         name, val = op["change"]
                         model.set_params(**{name: val})
                         user_params[name] = val
+                        if name in ("kernel", "metric", "base_kernel") and (name + "_params") in model.get_params():
+                            model.set_params(**{name + "_params": None})
+                            user_params[name + "_params"] = None
                     elif kind == "roundtrip":
                         before = model.get_params()
                         model.set_params(**model.get_params())
@@ -462,7 +547,7 @@ def execute(record):
                         res.probe("interrupted_path_left_alpha_changed")
                         user_params["alpha"] = a
                 if kind in ("fit", "fit_predict", "predict", "predict_proba", "score", "crash_fit", "badparam_fit",
-                            "malformed_fit") or (kind == "path" and outcome == "ok"):
+                            "malformed_fit") or (kind in ("path", "nan_path") and outcome == "ok"):
                     # fit / predict / predict_proba / score never modify hyper-parameters; a COMPLETED path falls under
                     # "running path twice on the same object produces the same model", hyper-parameters included
                     if not check_params(base_kind):
@@ -504,6 +589,28 @@ def execute(record):
                             except Exception as e:
                                 if is_harness_frame(e):
                                     raise
+                        if d is None and op.get("isolate"):
+                            from .. import cleanroom
+                            room = cleanroom.get()
+                            if room is None:
+                                res.probe("clean_room_unavailable")
+                            else:
+                                status, iso = room.call("gemsim.scenarios.c12", "isolated_execution",
+                                                        {"cfg": cfg, "params": params_at_call, "which": op.get("data", 0),
+                                                         "kind": kind, "args": op.get("args", {})})
+                                if status != "ok":
+                                    raise HarnessError("clean room: " + str(iso))
+                                res.probe("clean_room_references")
+                                log.emit("CLEANROOM", kind=kind, state=iso.get("state", "raised"))
+                                if "raised" in iso:
+                                    d = "raised_in_pristine_process_only"
+                                else:
+                                    mine = fitted_state(model)
+                                    if state_fingerprint(mine) != iso["state"]:
+                                        bad = [k for k in sorted(mine) if state_fingerprint(mine[k]) != iso["attrs"].get(k)]
+                                        d = "differs_from_pristine_process:" + (bad[0] if bad else "?")
+                                    elif ret is not None and iso["ret"] != state_fingerprint(list(ret) if isinstance(ret, tuple) else np.asarray(ret)):
+                                        d = "differs_from_pristine_process:return"
                         if d is not None:
                             res.violate(f"C12:history_dependence:{kind}:{d}", {"history": done, "attr": d,
                                                                            "user_params": {k: repr(v)[:40] for k, v in user_params.items()}})
